@@ -335,3 +335,42 @@ let run ?(flocq = false) (t : str array) : str * str =
     let outs = SL.map (fun st -> step ss st) (split_steps t) in
     (cat " | " outs, "-")
   with Unsupported -> ("UNSUP", "-")
+
+(* ---- C01 stream ---- *)
+let c1_line (res : str) (s : state) (at : str) : str =
+  let rec drop k l = if k <= 0 then l else match l with [] -> [] | _ :: r -> drop (k - 1) r in
+  Printf.sprintf "R=%s DS=[%s] HEAP=[%s] LOOPS=[%s] RS=%d OUT=%s AT=%s" res
+    (cat " " (SL.rev_map cell_str s.ds)) (cat " " (SL.map cell_str (drop 6 s.heap)))
+    (cat " " (SL.rev_map loop_str s.loops)) (SL.length s.rs)
+    (hexbytes_of_string (string_of_coq s.out)) at
+
+let run_c1 (t : str array) : str * str =
+  cur_fops := host_fops;
+  let lim = z_of_hex (Printf.sprintf "%x" (int_of_string t.(0))) in
+  let s0 = set_limits (set_meter Boot.boot Z0) (Some lim) None None in
+  let src = coq_of_string (string_of_hexbytes t.(1)) in
+  let mirror =
+    match Build.eval !cur_fops parse_real run_fuel build_fuel src s0 with
+    | ROk ((), s) -> c1_line "ok" s "-"
+    | RErr (k, p, s) ->
+      let at = if SL.length s.code > 0 then
+          (let rec nth l k = match l with [] -> None | x :: r -> if k = 0 then Some x else nth r (k - 1) in
+           match nth s.dbg (ion s.cx.cip) with
+           | Some ((_, a), b) -> Printf.sprintf "%d-%d" (ion a) (ion b)
+           | None -> "-")
+        else "-" in
+      c1_line (err_text k p) s at
+    | RPanic -> "PANIC"
+    | RUnsup -> "UNSUP" in
+  let spec =
+    match Struct.seval_source !cur_fops parse_real (nat_of_int (min 60000 (12 * int_of_string t.(0) + 400))) src s0 with
+    | Struct.CBuildErr k -> c1_line ("E" ^ kind_str k) s0 "-"
+    | Struct.CUnsupported -> "-"
+    | Struct.CRun r ->
+      (match r with
+       | Struct.SDone s -> c1_line "ok" s "-"
+       | Struct.SBroke _ -> "-"
+       | Struct.SFail (k, p, (a, b), s) -> c1_line (err_text k p) s (Printf.sprintf "%d-%d" (ion a) (ion b))
+       | Struct.SOut -> "-"
+       | Struct.SUnsup -> "-") in
+  (mirror, spec)
